@@ -14,6 +14,9 @@ VERIF = '/verif'
 # keeps its scratch files / evidence / replays apart (build/mut/<tag>/).  The registered commands never set them.
 REPO = os.environ.get('PV_REPO') or '/repo'
 TAG = os.environ.get('PV_TAG') or ''
+# one id per check invocation (parent and child share it): scratch paths carry it, so that two invocations of the
+# same check running at the same time never share a file
+RUNID = os.environ.get('PV_RUNID') or 'p%d' % os.getpid()
 COQ = os.path.join(VERIF, 'coq')
 RUN = os.path.join(COQ, 'Run')
 PY = '/venv/bin/python'
@@ -78,12 +81,16 @@ def gate():
 
 def coq_make(targets=(), timeout=1500):
     """Full .vo build of the project (no -vos).  Returns (rc, tail of log)."""
-    if not os.path.exists(os.path.join(COQ, 'Makefile')) or \
-            os.path.getmtime(os.path.join(COQ, 'Makefile')) < os.path.getmtime(os.path.join(COQ, '_CoqProject')):
-        subprocess.run(['coq_makefile', '-f', '_CoqProject', '-o', 'Makefile'], cwd=COQ,
-                       capture_output=True, text=True)
-    p = subprocess.run(['timeout', str(timeout), 'make', '-k', '-j16'] + list(targets), cwd=COQ,
-                       capture_output=True, text=True)
+    import fcntl
+    # one build at a time: checks started together (e.g. from a fresh restore) must not write the same .vo files
+    with open(os.path.join(COQ, '.build.lock'), 'w') as lk:
+        fcntl.flock(lk, fcntl.LOCK_EX)
+        if not os.path.exists(os.path.join(COQ, 'Makefile')) or \
+                os.path.getmtime(os.path.join(COQ, 'Makefile')) < os.path.getmtime(os.path.join(COQ, '_CoqProject')):
+            subprocess.run(['coq_makefile', '-f', '_CoqProject', '-o', 'Makefile'], cwd=COQ,
+                           capture_output=True, text=True)
+        p = subprocess.run(['timeout', str(timeout), 'make', '-k', '-j16'] + list(targets), cwd=COQ,
+                           capture_output=True, text=True)
     return p.returncode, (p.stdout + p.stderr)[-6000:]
 
 
@@ -187,7 +194,7 @@ class Ctx:
         self.search = False
         self.corr_relations = []
         os.makedirs(os.path.join(VERIF, 'build', 'run'), exist_ok=True)
-        self._mark = os.path.join(VERIF, 'build', 'run', pid + TAG + '.current.json')
+        self._mark = os.path.join(VERIF, 'build', 'run', pid + TAG + '_' + RUNID + '.current.json')
 
     thorough = property(lambda self: self.tier == 'thorough')
 
